@@ -16,9 +16,16 @@ pub async fn apply_any(c: &mut Cluster, ev: &Event) -> Res<()> {
 /// Views of all live nodes plus pseudo-views of the durable images of dead nodes.
 pub async fn all_views(c: &Cluster) -> Vec<NodeView> {
     let mut views = Vec::new();
-    for (_, s) in c.slots.iter() {
-        if let Slot::Up(n) = s {
-            views.push(n.view().await);
+    for (id, s) in c.slots.iter() {
+        match s {
+            Slot::Up(n) => views.push(n.view().await),
+            // blocked in its vote broadcast: log and commit index are those of its last view
+            Slot::Busy => {
+                if let Some(v) = c.last_views.get(id) {
+                    views.push(v.clone());
+                }
+            }
+            _ => {}
         }
     }
     views
@@ -27,15 +34,17 @@ pub async fn all_views(c: &Cluster) -> Vec<NodeView> {
 pub async fn check_global(c: &mut Cluster) {
     let views = all_views(c).await;
     check_pairs(&mut c.oracle, &views);
+    check_clients(c);
 
     // ---- C09: when a leader's commit index is N, a majority of the voters it currently
     //      recognises (itself included) hold its entry N, and entry N is of its term.
     let mut images: Vec<(u32, Vec<super::cluster::LogEnt>)> = Vec::new();
     for (id, s) in c.slots.iter() {
         match s {
-            Slot::Up(n) => {
-                let v = views.iter().find(|v| v.id == n.id).unwrap();
-                images.push((*id, v.log.clone()));
+            Slot::Up(_) | Slot::Busy => {
+                if let Some(v) = views.iter().find(|v| v.id == *id) {
+                    images.push((*id, v.log.clone()));
+                }
             }
             Slot::Down(img) => {
                 images.push((*id, img.disk.log.values().map(entry_view).collect()));
@@ -112,4 +121,116 @@ pub fn outcome_key(c: &Cluster) -> String {
         ));
     }
     s
+}
+
+fn op_matches(op: &super::cluster::Op, cmd: &d_engine_core::Command) -> bool {
+    use super::cluster::Op;
+    use d_engine_core::Command;
+    match (op, cmd) {
+        (Op::Put(k, v), Command::Insert { key, value, ttl_secs: None }) => {
+            key.as_ref() == k.as_bytes() && value.as_ref() == v.as_bytes()
+        }
+        (Op::PutTtl(k, v, t), Command::Insert { key, value, ttl_secs: Some(tt) }) => {
+            key.as_ref() == k.as_bytes() && value.as_ref() == v.as_bytes() && tt == t
+        }
+        (Op::Del(k), Command::Delete { key }) => key.as_ref() == k.as_bytes(),
+        (Op::Cas(k, e, v), Command::CompareAndSwap { key, expected, value }) => {
+            key.as_ref() == k.as_bytes()
+                && value.as_ref() == v.as_bytes()
+                && expected.as_ref().map(|b| b.as_ref()) == e.as_ref().map(|s| s.as_bytes())
+        }
+        _ => false,
+    }
+}
+
+fn op_value(op: &super::cluster::Op) -> Option<&str> {
+    use super::cluster::Op;
+    match op {
+        Op::Put(_, v) | Op::PutTtl(_, v, _) | Op::Cas(_, _, v) => Some(v.as_str()),
+        Op::Del(_) => None,
+    }
+}
+
+/// Client-visible oracles (C14, C29), evaluated after every event.
+pub fn check_clients(c: &mut Cluster) {
+    use super::cluster::ClientOutcome;
+    let mut viol: Vec<(String, String, String)> = vec![];
+    for cl in &c.clients {
+        let Some(op) = &cl.write else { continue };
+        match &cl.outcome {
+            ClientOutcome::Err(e) => {
+                // C14: a write the node *rejected* is never applied anywhere
+                let rejected = e.starts_with("FailedPrecondition:Not leader")
+                    || e.starts_with("InvalidArgument")
+                    || e.starts_with("ResourceExhausted")
+                    || e == "NotLeader";
+                if rejected {
+                    if let Some(v) = op_value(op) {
+                        if c.oracle.applied_values.contains(v) {
+                            viol.push((
+                                "C14".into(),
+                                format!("rej{}", cl.id),
+                                format!(
+                                    "write {:?} was rejected by node {} with {:?} but its value was applied",
+                                    op, cl.node, e
+                                ),
+                            ));
+                        }
+                    }
+                }
+            }
+            ClientOutcome::WriteOk(flag) => {
+                // C29: success only after the request's own entry is committed and applied on
+                // the leader that answered, and the flag is the applied outcome
+                let obs = &c.observers[&cl.node];
+                let recs = obs.applies.lock().unwrap();
+                let mut found: Option<(u64, bool)> = None;
+                for r in recs.iter() {
+                    for (e, ok) in r.entries.iter().zip(r.results.iter()) {
+                        if found.is_none() && op_matches(op, &e.command) {
+                            found = Some((e.index, *ok));
+                        }
+                    }
+                }
+                match found {
+                    None => viol.push((
+                        "C29".into(),
+                        format!("noapply{}", cl.id),
+                        format!(
+                            "write {:?} was acknowledged by node {} before that node applied it",
+                            op, cl.node
+                        ),
+                    )),
+                    Some((idx, ok)) => {
+                        if ok != *flag {
+                            viol.push((
+                                "C29".into(),
+                                format!("flag{}", cl.id),
+                                format!(
+                                    "write {:?} (entry {}) was answered succeeded={} but applied with succeeded={}",
+                                    op, idx, flag, ok
+                                ),
+                            ));
+                        }
+                        if let Some(v) = c.last_views.get(&cl.node) {
+                            if matches!(c.slots.get(&cl.node), Some(Slot::Up(_))) && v.commit < idx {
+                                viol.push((
+                                    "C29".into(),
+                                    format!("commit{}", cl.id),
+                                    format!(
+                                        "write {:?} (entry {}) was acknowledged while node {}'s commit index is {}",
+                                        op, idx, cl.node, v.commit
+                                    ),
+                                ));
+                            }
+                        }
+                    }
+                }
+            }
+            _ => {}
+        }
+    }
+    for (p, k, w) in viol {
+        c.oracle.violate(&p, k, w);
+    }
 }
